@@ -300,7 +300,6 @@ func (r *rwRT) ruleOracles() {
 
 var _ = strings.Contains
 
-
 // flippedToTrue: some boolean variable captured by the closure is false before and true after.
 func flippedToTrue(before, after *State, clo AV) bool {
 	c, ok := clo.(Closure)
